@@ -1,8 +1,11 @@
 package main
 
 import (
+	"crypto/md5"
+	"encoding/hex"
 	"fmt"
 	"net/http"
+	"net/url"
 	"regexp"
 	"sort"
 	"strconv"
@@ -117,15 +120,20 @@ func runC16(tier string, seed uint64) {
 	if tier == "thorough" {
 		n = 6000
 	}
-	nextUpload := 0
 	var uploads []string
+	partsOf := map[string]map[int][]byte{}
 	for i := 0; i < n; i++ {
 		b := buckets[rng.Intn(len(buckets))]
 		k := keys[rng.Intn(len(keys))]
 		var l logical
+		isComplete, isInitiate := false, false
 		switch w := rng.Intn(100); {
 		case w < 6:
 			l = logical{method: "PUT", bucket: b}
+			if rng.Intn(3) == 0 {
+				// names create-bucket must refuse, in whatever form the request arrives (host names are not case-folded)
+				l.bucket = []string{"AzA", "aaA", "A-9", "a_b", "ab", "-ab"}[rng.Intn(6)]
+			}
 		case w < 24:
 			l = logical{method: "PUT", bucket: b, key: k, body: []byte(fmt.Sprintf("body-%d", i)), hdr: [][2]string{{"X-Amz-Meta-I", strconv.Itoa(i)}}}
 		case w < 36:
@@ -156,13 +164,33 @@ func runC16(tier string, seed uint64) {
 			l = logical{method: "PUT", bucket: b, key: k, body: []byte{}, hdr: [][2]string{{"X-Amz-Copy-Source", "/" + src}}}
 		case w < 84:
 			l = logical{method: "POST", bucket: b, key: k, query: "uploads", body: []byte{}}
-			nextUpload++
-			uploads = append(uploads, b+"\x00"+k+"\x00"+strconv.Itoa(nextUpload))
+			isInitiate = true
 		case w < 92 && len(uploads) > 0:
 			u := strings.Split(uploads[rng.Intn(len(uploads))], "\x00")
-			switch rng.Intn(4) {
+			switch rng.Intn(5) {
 			case 0, 1:
-				l = logical{method: "PUT", bucket: u[0], key: u[1], query: "uploadId=" + u[2] + "&partNumber=" + strconv.Itoa(1+rng.Intn(3)), body: []byte(fmt.Sprintf("part-%d", i))}
+				pn := 1 + rng.Intn(3)
+				pb := []byte(fmt.Sprintf("part-%d", i))
+				l = logical{method: "PUT", bucket: u[0], key: u[1], query: "uploadId=" + u[2] + "&partNumber=" + strconv.Itoa(pn), body: pb}
+				if partsOf[u[2]] == nil {
+					partsOf[u[2]] = map[int][]byte{}
+				}
+				partsOf[u[2]][pn] = pb
+			case 4:
+				// complete with the parts uploaded so far (their ETags are the MD5s of what was sent)
+				var nums []int
+				for pn := range partsOf[u[2]] {
+					nums = append(nums, pn)
+				}
+				sort.Ints(nums)
+				xmlb := "<CompleteMultipartUpload>"
+				for _, pn := range nums {
+					sum := md5.Sum(partsOf[u[2]][pn])
+					xmlb += fmt.Sprintf("<Part><PartNumber>%d</PartNumber><ETag>&quot;%s&quot;</ETag></Part>", pn, hex.EncodeToString(sum[:]))
+				}
+				xmlb += "</CompleteMultipartUpload>"
+				l = logical{method: "POST", bucket: u[0], key: u[1], query: "uploadId=" + u[2], body: []byte(xmlb)}
+				isComplete = true
 			case 2:
 				l = logical{method: "GET", bucket: u[0], key: u[1], query: "uploadId=" + u[2]}
 			case 3:
@@ -226,13 +254,36 @@ func runC16(tier string, seed uint64) {
 			emit("c16", "X", t.name, t.mode, joinHex(t.bases), hs(host), hs(dec), hs(l.bucket), hs(l.key), boolField(c == ref),
 				joinHex(uniq(t.rec.buckets, isCopy)), joinHex(uniq(keysRec, false)), hs(l.method+" "+l.query))
 			stat("variant-" + t.name)
+			if isComplete {
+				stat(fmt.Sprintf("complete-%d", r.Status))
+			}
+			if isInitiate && ti == 0 && r.Status == 200 {
+				// the id the path-style server issued; every twin has seen the same history, so it is theirs too
+				if ids := xmlAll(string(r.Body), "UploadId"); len(ids) == 1 {
+					uploads = append(uploads, l.bucket+"\x00"+l.key+"\x00"+ids[0])
+				}
+			}
+			if isComplete && r.Status == 200 {
+				// the Location the server hands back names the object: following it on the same server reaches it
+				if locs := xmlAll(string(r.Body), "Location"); len(locs) == 1 {
+					if u, err := url.Parse(locs[0]); err == nil {
+						g := do(t.h, Req{Method: "GET", Path: u.EscapedPath(), Host: u.Host})
+						if g.Status == 200 {
+							emit("c16", "GOOD", hs("Location of a completed upload leads to the object"))
+						} else {
+							emit("c16", "BAD", hs(fmt.Sprintf("twin %s: CompleteMultipartUpload of %s/%s via host %q answers Location %q; GET of that URL on the same server answers %d", t.name, l.bucket, l.key, host, locs[0], g.Status)))
+						}
+						stat("location-followed")
+					}
+				}
+			}
 			if c != ref {
 				stat("differs-from-path-style")
 			}
 			nontrivial(t.name + "|" + l.method + "|" + l.query + "|" + l.bucket + "|" + l.key)
 		}
 	}
-	sample("each logical request (create/put/get/range/head/delete/list V1+V2/versions/location/versioning/multi-delete/copy/multipart initiate+part+list+abort/unknown methods over 2 buckets x 16 keys incl. spaces, UTF-8, dots, nesting, empty / '.' / '..' segments) is sent to 19 twin servers: path-style; host-bucket; host-bucket-base with one base, two bases (first and second base, configured with stray dots and a port), fallbacks (localhost, the base itself, multi-label prefix, unrelated host), two bases one of which is a suffix of the other (both orders, both hosts), host-bucket and host-bucket-base configured together (base host and every fallback); path-style with an extra leading and a trailing slash")
+	sample("each logical request (create/put/get/range/head/delete/list V1+V2/versions/location/versioning/multi-delete/copy/multipart initiate+part+list+complete (its Location followed)+abort/unknown methods over 2 buckets x 16 keys incl. spaces, UTF-8, dots, nesting, empty / '.' / '..' segments) is sent to 19 twin servers: path-style; host-bucket; host-bucket-base with one base, two bases (first and second base, configured with stray dots and a port), fallbacks (localhost, the base itself, multi-label prefix, unrelated host), two bases one of which is a suffix of the other (both orders, both hosts), host-bucket and host-bucket-base configured together (base host and every fallback); path-style with an extra leading and a trailing slash")
 }
 
 func uniq(xs []string, skip bool) []string {
